@@ -68,3 +68,13 @@ package v2
 //@   before DeletePoints requires callres(DecodeValid, 1, 1) == nil && len(arg2) == len(req.Ids)
 //@   ensures ncalls(Encode) == 1 && ncalls(DeletePoints) <= 1
 //@   loop 1 invariant rangeindex >= -1 && rangeindex < len(req.Ids) && len(pointIds) == len(req.Ids) && ncalls(Encode) == 0 && ncalls(DeletePoints) == 0
+
+// A collection id is accepted only if it is 3 to 24 characters long and every character is a
+// lower-case letter or a digit: it becomes a key suffix and a directory name (properties C16, C18).
+//@ spec idChar(c byte) bool = (c >= 'a' && c <= 'z') || (c >= '0' && c <= '9')
+//@ func (CreateCollectionRequest).Validate
+//@   property C16 C18
+//@   safety -overflow
+//@   ensures result == nil ==> len(req.Id) >= 3 && len(req.Id) <= 24 && forall(k, 0, len(req.Id), idChar(req.Id[k]))
+//@   ensures result == nil ==> callres(Validate, 1, 0) == nil
+//@   loop 1 invariant rangepos() >= 0 && rangepos() <= len(req.Id) && forall(k, 0, rangepos(), idChar(req.Id[k]))
